@@ -105,6 +105,59 @@ def run(ctx):
                 if not (rc_ == rd == c.strip()):
                     viol.append({"sig": "error-parity", "detail": "%s: ClockBoundClient '%s' ShmReader '%s' clockbound_open '%s'" % (os.path.basename(pth), rc_, rd, c.strip()), "replay": ""})
             samples.append({"open_outcomes_by_kind": kinds})
+        # 4b. the path is the caller's business: the same two files (one valid, one malformed) reached
+        # through differently spelled paths must give the same answers from both libraries.
+        valid_src = os.path.join(d0, "trunc-72")
+        bad_src = os.path.join(d0, "size-71")
+        spell = {}
+        odd_dirs = ["with space", "donn\u00e9es-utf8", "tab\there", "d" * 200]
+        plist, pmeta = [], []
+        for dn in odd_dirs:
+            dd = os.path.join(d0, dn)
+            os.makedirs(dd, exist_ok=True)
+            for src, what in ((valid_src, "valid"), (bad_src, "malformed")):
+                pth = os.path.join(dd, "shm-" + what)
+                os.link(src, pth)
+                plist.append(pth)
+                pmeta.append((dn, what))
+        for src, what in ((valid_src, "valid"), (bad_src, "malformed")):
+            plist.append(os.path.join(d0, ".", "a-directory", "..", os.path.basename(src)))
+            pmeta.append(("dot-dot", what))
+            plist.append(d0 + "//" + os.path.basename(src))
+            pmeta.append(("double-slash", what))
+        pr = c16.run_list(ctx, csim, ["openlist", "--list", "{list}"], plist + [valid_src, bad_src])
+        pc = c16.run_list(ctx, cdrv, ["openlist", "{list}"], plist + [valid_src, bad_src], {"ASAN_OPTIONS": "halt_on_error=1:detect_leaks=0"})
+        rl, cl = pr.stdout.splitlines(), pc.stdout.splitlines()
+        path_cases = 0
+        if pr.returncode or pc.returncode or len(rl) != len(plist) + 2 or len(cl) != len(plist) + 2:
+            viol.append({"sig": "open-run-crashed", "detail": "odd path spellings: rust rc=%d (%d answers) c rc=%d (%d answers): %s" % (pr.returncode, len(rl), pc.returncode, len(cl), (pc.stderr or pr.stderr)[-300:]), "replay": ""})
+        else:
+            ref = {"valid": cl[-2].strip(), "malformed": cl[-1].strip()}
+            for (dn, what), r, c in zip(pmeta, rl, cl):
+                path_cases += 1
+                rc_, rd = [x.strip() for x in r.split("||")]
+                if not (rc_ == rd == c.strip() == ref[what]):
+                    viol.append({"sig": "path-spelling-changes-answer", "detail": "the %s segment reached through a path spelled '%s': ClockBoundClient '%s' ShmReader '%s' clockbound_open '%s'; through the plain path: '%s'" % (what, dn, rc_, rd, c.strip(), ref[what]), "replay": ""})
+            # bytes that are not UTF-8 (a Latin-1 directory name): only a C caller can pass them
+            raw_dir = d0.encode() + b"/donn\xe9es-latin1"
+            os.makedirs(raw_dir, exist_ok=True)
+            for src, what in ((valid_src, "valid"), (bad_src, "malformed")):
+                rawp = raw_dir + b"/shm-" + what.encode()
+                os.link(src.encode(), rawp)
+                po = subprocess.run([cdrv.encode(), b"open", rawp], stdout=subprocess.PIPE, stderr=subprocess.PIPE, timeout=60, env=dict(ctx.env, ASAN_OPTIONS="halt_on_error=1:detect_leaks=0"))
+                got = po.stdout.decode(errors="replace").strip()
+                path_cases += 1
+                if po.returncode != 0 or got != ref[what]:
+                    viol.append({"sig": "path-spelling-changes-answer", "detail": "the %s segment reached through a directory whose name is not UTF-8 (bytes %r): clockbound_open '%s' (exit %d); through an ASCII hard link to the same file: '%s'" % (what, rawp[-25:], got, po.returncode, ref[what]), "replay": ""})
+        err_cases += path_cases
+        # 4c. answers do not depend on how often the process asked before (both libraries)
+        many = [os.path.join(d0, n) for n in (("size-71", "ver1-gen0", "trunc-72") if q else ("size-71", "size-16", "ver1-gen0", "trunc-00", "trunc-72", "missing", "a-directory"))]
+        sviol, stress, sev = c16.open_stress(ctx, csim, cdrv, many, many, valid_src, simultaneous=0, tag="C17")
+        for v in sviol:
+            v["sig"] = "repeated-open-" + v["sig"]
+        viol += sviol
+        err_cases += sev
+        samples.append({"repeated_opens": stress, "odd_path_spellings": path_cases})
     finally:
         import shutil
         shutil.rmtree(d0, ignore_errors=True)
